@@ -170,6 +170,24 @@ let handle (fields : string list) : string * string =
       | Resp (ty, _, _) :: _ -> Printf.sprintf "fail:malformed-or-untruthful-response-type-%d" (int_of_n ty)
       | _ -> "fail:response" in
     (m, verdict)
+  | "segment" :: bits :: live :: cls :: whole :: seg :: impl :: [] ->
+    (* the same packet sequence delivered one packet per read (whole) and under a
+       segmentation (seg); observation = "<seg obs> | <whole obs>" *)
+    let cfg = parse_cfg bits "0000000" "0" in
+    let live = if live = "-" then [] else List.map bytes_of_hex (split_on ',' live) in
+    let obs its =
+      let items = Model.resolve_dials live cfg Model.tstate0 (parse_items its) in
+      obs_of_events (Model.run cfg items) (int_of_nat (Model.consumed cfg items)) in
+    let m = obs seg ^ " | " ^ obs whole in
+    let strip_n o = String.concat " " (List.filter (fun t -> not (String.length t > 2 && String.sub t 0 2 = "N:"))
+                                         (split_on ' ' o)) in
+    let verdict =
+      match String.index_opt impl '|' with
+      | None -> "fail:bad-observation"
+      | Some i ->
+        let a = String.trim (String.sub impl 0 i) and b = String.trim (String.sub impl (i + 1) (String.length impl - i - 1)) in
+        if strip_n a = strip_n b then "ok" else "fail:" ^ cls in
+    (m, verdict)
   | k :: _ -> failwith ("unknown kind " ^ k)
   | [] -> failwith "empty line"
 
